@@ -1,9 +1,11 @@
 (* C09 - every valid BER form of a value decodes to that value.  Statements only.
-   Full statement (kept visible; decided per input by evaluating both sides, not yet proved):
+   Full statement:
      forall T v b, X690.read T b = Some (abs T v, []) ->
        exists v', decode BER (Some T) b = Ok (DV T v', []) /\ abs T v' = abs T v.
-   Proved so far: the choice points of the framing layer. *)
-From PV Require Import Base.Bytes Model.Tag Model.Types Model.Dec Proofs.TagOctets Proofs.BerForms.
+   Proved (C09_all_forms, at the end of this file) for every type without CHOICE/ANY, with three
+   side conditions each of which marks a real disagreement between library and X.690 reader. *)
+From PV Require Import Base.Bytes Model.Tag Model.Types Model.TableTypes Model.Dec Spec.X690 Gen.Tables
+     Proofs.TagOctets Proofs.BerForms Proofs.BerAllForms.
 Local Open Scope N_scope.
 
 (* identifier octets of every class, form and number are read back (short and long form) *)
@@ -29,3 +31,45 @@ Example C09_nonvacuous :
   decode BER (Some (TSeqOf TOcts)) [48; 128; 36; 131; 0; 0; 12; 4; 1; 97; 36; 128; 4; 0; 0; 0; 4; 1; 98; 0; 0]
   = Ok (DV (TSeqOf TOcts) (VList [VOcts [97; 98]]), []).
 Proof. vm_compute. reflexivity. Qed.
+
+(* THE property, for every input.  BER(T, v) is defined independently of the library: b is a valid BER
+   encoding of a value with abstract content a (followed by tl) iff the X.690 reference reader
+   (Spec/X690.v: parse then interp) says so.  Whatever the reader accepts - any mix of short, long and
+   over-long length forms, definite or indefinite length at each constructed level, primitive or
+   arbitrarily (also nested) segmented strings, any non-zero TRUE, SET members in any order, DEFAULT
+   and OPTIONAL components present or absent - the library's BER decoder accepts, with the same
+   abstract value and the same remainder.  frag: every simple type, the character string types the
+   model covers, SEQUENCE OF, SET OF, SEQUENCE and SET with mandatory/OPTIONAL/DEFAULT components
+   (distinct tags as X.680 requires), IMPLICIT/EXPLICIT tagging, to any depth; not yet CHOICE and ANY.
+   The three side conditions are the places where library and reader genuinely differ:
+   a definite-length constructed BIT STRING with no segments (23 00: finding F54, the library refused
+   it), a binary REAL without mantissa octets (the reader is lax), octets above 7F in an ASCII-repertoire
+   string type (the library checks the repertoire, X.690 does not) *)
+Theorem C09_all_forms : forall T b a tl,
+  frag T = true -> wf_bytes b = true -> N.of_nat (length b) <= index_max ->
+  X690.read T b = Some (a, tl) ->
+  (forall n r, parse b = Some (n, r) ->
+     no_empty_constructed_bits T n = true /\ real_mantissas_present T n = true /\ ascii_strings_ascii T n = true) ->
+  exists v, decode BER (Some T) b = Ok (DV T v, tl) /\ abs T v = a.
+Proof. exact ber_all_forms. Qed.
+Print Assumptions C09_all_forms.
+
+(* no side condition at all for types without BIT STRING, REAL and ASCII-repertoire strings *)
+Theorem C09_all_forms_unconditional : forall T b a tl,
+  frag T = true -> side_keys T None = [] -> wf_bytes b = true -> N.of_nat (length b) <= index_max ->
+  X690.read T b = Some (a, tl) ->
+  exists v, decode BER (Some T) b = Ok (DV T v, tl) /\ abs T v = a.
+Proof. exact ber_all_forms_no_bits. Qed.
+Print Assumptions C09_all_forms_unconditional.
+
+Example C09_all_forms_nonvacuous :
+  frag ex_T = true /\ wf_bytes ex_b = true /\ N.of_nat (length ex_b) <= index_max
+  /\ X690.read ex_T ex_b
+     = Some (ARec [Some (AInt 5); None; Some (ABool true); Some (ABits ex_bits); Some (AList [AOcts [200]]);
+                   Some (ARec [Some (ABool true); Some (AOid [1; 2; 3]); Some (AInt 7); Some (AReal (ABin 5 (-1)))])], [9; 9])
+  /\ (forall n r, parse ex_b = Some (n, r) ->
+        no_empty_constructed_bits ex_T n = true /\ real_mantissas_present ex_T n = true /\ ascii_strings_ascii ex_T n = true)
+  /\ decode BER (Some ex_T) ex_b
+     = Ok (DV ex_T (VRec [Some (VInt 5); None; None; Some (VBits ex_bits); Some (VList [VOcts [200]]);
+                          Some (VRec [Some (VBool true); Some (VOid [1; 2; 3]); None; Some (VReal (RBin 5 (-1)))])]), [9; 9]).
+Proof. exact ber_all_forms_nonvacuous. Qed.
